@@ -14,7 +14,7 @@ import json
 import core
 
 LEVEL = "proof"
-EXTRA_TARGETS = ["model/IterTie.vo", "model/IterEnvTie.vo"]
+EXTRA_TARGETS = ["model/IterTie.vo", "model/IterEnvTie.vo", "model/IterArgsTie.vo"]
 
 SIZES = [[1, 1], [2, 1], [3, 2], [2, 3]]
 DURS = [1, 7, 40, None]  # None = DYNAMIC
@@ -955,13 +955,224 @@ def exhaustive_env_small(maxlen):
     return out
 
 
+# ================================================================= render arguments by CLASS RELATION
+#
+# model/IterArgs.v: the render arguments handed to set_render_args / the constructors are associated with the
+# renderable's own class, an ANCESTOR's (compatible: converted), a DESCENDANT's (subclass) or an UNRELATED class
+# (incompatible: IncompatibleRenderArgsError, nothing changes).  Driver: impl_c08.py cases with "hier" (class
+# hierarchy Renderable <- VR <- VRMid <- VRLeaf, VR <- VRSib, Other; iterators over VRMid instances); judged by
+# model/IterArgsTie.v [checkA].
+
+RELS = ["same", "same", "anc", "anc0", "desc", "desc", "sib", "other"]
+REL_T = {"same": "CSame", "anc": "CAncestor", "anc0": "CAncestor", "desc": "CDescendant", "sib": "CUnrelated",
+         "other": "CUnrelated"}
+
+
+def gen_offered(rng, rel=None):
+    rel = rel or rng.choice(RELS)
+    a = {"rel": rel}
+    if rel in ("same", "anc", "desc", "sib"):
+        a["b"] = rng.randint(0, 3)
+    if rel in ("same", "desc"):
+        a["m"] = rng.randint(0, 3)
+    if rel in ("desc", "sib", "other"):
+        a["x"] = rng.randint(0, 3)
+    return a
+
+
+def args_case(**kw):
+    c = base_case(hier=True, n=3, loops=2)
+    c.update(kw)
+    return c
+
+
+def gen_args_case(rng, length=20):
+    """A history of gen_case over a VRMid instance; every set_render_args (more of them) and the constructor
+    carry arguments of one of the class relations, with field values that tell the frames apart."""
+    c = gen_case(rng, length, fault_p=0.04, setting_bias=True)
+    c["hier"] = True
+    c["args"] = "none" if rng.random() < 0.3 else gen_offered(rng, rng.choice(["same", "same", "anc", "anc", "anc0",
+                                                                              "desc", "sib", "other"]))
+    ops = []
+    for o in c["ops"]:
+        if o[0] == "args":
+            o = ["args", gen_offered(rng)]
+        elif rng.random() < 0.12:
+            ops.append(["args", gen_offered(rng)])
+        ops.append(o)
+    if not any(o[0] == "args" for o in ops):
+        ops.insert(rng.randrange(len(ops) + 1), ["args", gen_offered(rng)])
+    c["ops"] = ops
+    return c
+
+
+def A(rel, **kw):
+    return ["args", dict(rel=rel, **kw)]
+
+
+ARGS_CORPUS = [
+    # each relation handed to set_render_args between two frames
+    args_case(args={"rel": "same", "b": 1, "m": 1}, ops=[N, A("desc", b=3, m=2, x=1), N, N]),
+    args_case(args={"rel": "same", "b": 1, "m": 1}, ops=[N, A("anc", b=2), N, A("anc0"), N, A("same", b=3, m=2), N]),
+    args_case(ops=[N, A("sib", b=2, x=1), N, A("other", x=3), N, A("desc", b=0, m=0, x=0), N]),
+    args_case(cache=True, stamp=True, ops=[N, N, N, A("desc", b=1, m=1, x=1), N, A("anc", b=0), N, N,
+                                           A("same", b=0, m=0), N]),
+    args_case(n=None, total=4, loops=1, ops=[N, A("desc", b=2, m=2), N, A("anc", b=2), N, N, N]),
+    args_case(ops=[N, ["close"], A("desc", b=1, m=1), A("same", b=1, m=1), A("other"), N]),
+    args_case(ops=[A("desc", b=1, m=2, x=3), N]),
+    # each relation handed to the constructors
+] + [args_case(args=dict(a), owns=owns, ops=[N, N])
+     for owns in (True, False)
+     for a in ({"rel": "same", "b": 2, "m": 3}, {"rel": "anc", "b": 2}, {"rel": "anc0"},
+               {"rel": "desc", "b": 2, "m": 3, "x": 1}, {"rel": "sib", "b": 1, "x": 1}, {"rel": "other", "x": 2})]
+
+
+def offered_t(a):
+    rel = a["rel"]
+    inh = a.get("b", 0) if rel != "other" else 0
+    own = a.get("m", 0) if rel in ("same", "desc") else 0
+    return f"{{| o_rel := {REL_T[rel]}; o_inh := {z(inh)}; o_own := {z(own)} |}}"
+
+
+def aop_t(o):
+    if o[0] == "args" and isinstance(o[1], dict):
+        return f"ASetArgs {offered_t(o[1])}"
+    return f"APlain ({op_t(o)})"
+
+
+def acase_t(c, r):
+    t = case_t(dict(c, args="none", ops=[]), r)
+    ctor = f"(Some {offered_t(c['args'])})" if isinstance(c["args"], dict) else "None"
+    return f"{{| ac_t := {t}; ac_ctor := {ctor}; ac_ops := {core.coq_list(c['ops'], aop_t)} |}}"
+
+
+ARGS_HEADER = ("From Coq Require Import List ZArith.\nImport ListNotations.\n"
+               "From TI Require Import model.Iter model.IterSpec model.IterTie model.IterArgs model.IterArgsTie.\n"
+               "Open Scope nat_scope.\n")
+
+
+def evaluate_args(cases, tag="c08a"):
+    """Returns (codes per case, errors, impl results)."""
+    impl = core.run_impl_parallel("impl_c08.py", cases, timeout=IMPL_TIMEOUT[0])
+    terms = [acase_t(c, r) for c, r in zip(cases, impl)]
+    codes = [0] * len(cases)
+    res, errors = core.coq_shards(tag, ARGS_HEADER, terms, "acase", "badA cases", shard=150)
+    for idx, code in res:
+        codes[idx] = code
+    return codes, errors, impl
+
+
+def fails_args(cands, tag="c08as"):
+    codes, errors, _ = evaluate_args(cands, tag=tag)
+    return [code >= 2 and not errors for code in codes]
+
+
+def is_args(c):
+    return bool(c.get("hier"))
+
+
+def describe_args(c):
+    return ("render class hierarchy Renderable <- VR(foo) <- VRMid(mid) <- VRLeaf(leaf), VR <- VRSib, Other; "
+            "iterator over a VRMid instance; render arguments by the class they are associated with "
+            "(same=VRMid, anc=VR, anc0=Renderable, desc=VRLeaf, sib=VRSib, other=Other; frames show foo+100*mid): "
+            + describe(c))
+
+
+def signature_args(c):
+    return core.sig({k: c.get(k) for k in ("hier", "n", "loops", "cache", "size", "dur", "args", "pad", "owns",
+                                           "frame", "faults", "ffaults", "ops")})
+
+
+def report_args_failures(cases, codes, max_shrunk=2, max_reported=5):
+    failing = [k for k, code in enumerate(codes) if code >= 2]
+    if not failing:
+        return []
+    failing.sort(key=lambda k: len(cases[k]["ops"]))
+    chosen = failing[:max_reported]
+    minimal = [shrink(cases[k], fails_args, "c08as") if j < max_shrunk else cases[k] for j, k in enumerate(chosen)]
+    uniq = {}
+    for m in minimal:
+        uniq.setdefault(signature_args(m), m)
+    keys = list(uniq)
+    c2, _, impl2 = evaluate_args([uniq[k] for k in keys], "c08ar")
+    out = []
+    for k, code, obs in zip(keys, c2, impl2):
+        m = uniq[k]
+        out.append({
+            "signature": k,
+            "what": "iterator history with render arguments of another class contradicts the documented model "
+                    "(compatible = same class or an ancestor's; otherwise IncompatibleRenderArgsError and no change): "
+                    + describe_args(m) + " -> constructor " + json.dumps(obs.get("ctor")) + ", observed "
+                    + json.dumps([x[0] for x in obs.get("ops", [])])[:600]
+                    + f" [{len(failing)} failing case(s) of this family in this run]",
+            "replay": {"case": m, "observed": obs, "code": code},
+        })
+    return out
+
+
+def args_histogram(cases, impl):
+    h = {"args_cases": len(cases), "ctor_relation": {}, "ctor_rejected": 0, "set_relation": {},
+         "set_accepted": {}, "set_rejected_incompatible": {}, "set_on_closed": 0,
+         "frames_after_a_rejected_set": 0, "frames_after_an_accepted_conversion": 0, "cached": 0,
+         "from_render_data": 0}
+    for c, r in zip(cases, impl):
+        rel0 = c["args"]["rel"] if isinstance(c["args"], dict) else "none"
+        h["ctor_relation"][rel0] = h["ctor_relation"].get(rel0, 0) + 1
+        h["from_render_data"] += not c.get("owns", True)
+        if r["ctor"][0] != "ok":
+            h["ctor_rejected"] += 1
+            continue
+        h["cached"] += c["cache"] is not False and c["n"] is not None
+        rejected = converted = False
+        for o, x in zip(c["ops"], r["ops"]):
+            out = x[0]
+            if o[0] == "args" and isinstance(o[1], dict):
+                rel = o[1]["rel"]
+                h["set_relation"][rel] = h["set_relation"].get(rel, 0) + 1
+                if out[0] == "K":
+                    h["set_accepted"][rel] = h["set_accepted"].get(rel, 0) + 1
+                    converted = converted or rel in ("anc", "anc0")
+                elif out[1] == "incompat":
+                    h["set_rejected_incompatible"][rel] = h["set_rejected_incompatible"].get(rel, 0) + 1
+                    rejected = True
+                else:
+                    h["set_on_closed"] += 1
+            elif o[0] == "next" and out[0] == "F":
+                h["frames_after_a_rejected_set"] += rejected
+                h["frames_after_an_accepted_conversion"] += converted
+    return h
+
+
+def nontrivial_args(c, r):
+    """>= 2 frames yielded and a set_render_args with arguments given by class relation"""
+    if r["ctor"][0] != "ok":
+        return False
+    frames = sum(1 for x in r["ops"] if x[0][0] == "F")
+    return frames >= 2 and any(o[0] == "args" and isinstance(o[1], dict) for o in c["ops"])
+
+
+def exhaustive_args_small(maxlen):
+    """every history of length <= maxlen over next / one set_render_args per relation / seek / close"""
+    import itertools
+    alphabet = [N, A("same", b=2, m=1), A("anc", b=3), A("anc0"), A("desc", b=2, m=2, x=1), A("sib", b=1, x=1),
+                A("other", x=1), S(0), ["close"]]
+    out = []
+    for ln in range(1, maxlen + 1):
+        for ops in itertools.product(alphabet, repeat=ln):
+            if any(o[0] == "args" for o in ops) and any(o[0] == "next" for o in ops):
+                out.append(args_case(n=2, cache=True, stamp=True, args={"rel": "same", "b": 1, "m": 1},
+                                     ops=[copy.deepcopy(list(o)) for o in ops]))
+    return out
+
+
 
 def run(ctx):
     rng = ctx.rng
     if ctx.replay:
         cases = [ctx.replay["replay"]["case"]]
         env_cases = [c for c in cases if is_env(c)]
-        cases = [c for c in cases if not is_env(c)]
+        arg_cases = [c for c in cases if is_args(c) and not is_env(c)]
+        cases = [c for c in cases if not is_env(c) and not is_args(c)]
     else:
         ngen = 800 if ctx.quick else 12000
         cases = [copy.deepcopy(c) for c in CORPUS]
@@ -975,34 +1186,48 @@ def run(ctx):
         env_cases += [gen_session_case(rng) for _ in range(n_sess)]
         if not ctx.quick:
             env_cases += exhaustive_env_small(4)
+        arg_cases = [copy.deepcopy(c) for c in ARGS_CORPUS]
+        arg_cases += [gen_args_case(rng, 20 if i % 4 else 35) for i in range(160 if ctx.quick else 2500)]
+        if not ctx.quick:
+            arg_cases += exhaustive_args_small(4)
     if ctx.quick:
         from concurrent.futures import ThreadPoolExecutor
-        with ThreadPoolExecutor(max_workers=2) as ex:  # the two families are independent: overlap them
+        with ThreadPoolExecutor(max_workers=3) as ex:  # the families are independent: overlap them
             f1 = ex.submit(lambda: evaluate(cases) if cases else ([], [], []))
             f2 = ex.submit(lambda: evaluate_env(env_cases) if env_cases else ([], [], []))
+            f3 = ex.submit(lambda: evaluate_args(arg_cases) if arg_cases else ([], [], []))
             codes, errors, impl = f1.result()
             ecodes, eerrors, eimpl = f2.result()
+            acodes, aerrors, aimpl = f3.result()
     else:
         IMPL_TIMEOUT[0] = 3000
         codes, errors, impl = evaluate(cases) if cases else ([], [], [])
         ecodes, eerrors, eimpl = evaluate_env(env_cases) if env_cases else ([], [], [])
-    errors = errors + eerrors
+        acodes, aerrors, aimpl = evaluate_args(arg_cases) if arg_cases else ([], [], [])
+    errors = errors + eerrors + aerrors
     failures = report_failures(cases, codes, fails_spec8, "c08s",
                                "iterator history contradicts the documented model (IterSpec)", evaluate)
     failures += report_env_failures(env_cases, ecodes, eimpl)
+    failures += report_args_failures(arg_cases, acodes)
     mismatches = [{"case": cases[i], "code": code, "observed": impl[i]} for i, code in enumerate(codes) if code == 1]
     mismatches += [{"case": env_cases[i], "code": code, "observed": eimpl[i]}
                    for i, code in enumerate(ecodes) if code == 1]
+    mismatches += [{"case": arg_cases[i], "code": code, "observed": aimpl[i]}
+                   for i, code in enumerate(acodes) if code == 1]
     distinct = {signature(c) for c, r in zip(cases, impl) if nontrivial(c, r)}
     distinct |= {signature_env(c) for c, r in zip(env_cases, eimpl) if nontrivial_env(c, r)}
+    distinct |= {signature_args(c) for c, r in zip(arg_cases, aimpl) if nontrivial_args(c, r)}
     hist = histogram(cases, impl)
     hist["environment"] = env_histogram(env_cases, eimpl)
+    hist["render_args_by_class_relation"] = args_histogram(arg_cases, aimpl)
     return {
         "corr_name": "Iter.trace (model) == IterSpec.spec_trace (documented machine) == real RenderIterator history "
                      "on the instrumented renderable VR (frames, loop countdown, errors, render-call log, tell()); "
                      "and IterEnv.trace_env == IterEnv.spec_trace_env == real history with terminal resizes, client "
-                     "writes to iterator.loop, and a second iterator over re-used render data",
-        "evaluations": len(cases) + len(env_cases),
+                     "writes to iterator.loop, and a second iterator over re-used render data; and the same with render "
+                     "arguments associated with the renderable's class / an ancestor's / a subclass's / an unrelated "
+                     "class (IterArgs.install vs IterArgs.doc_install) on a real class hierarchy",
+        "evaluations": len(cases) + len(env_cases) + len(arg_cases),
         "distinct_nontrivial": len(distinct),
         "rule": "corpus of boundary histories + random histories (1-40 ops, Next-weighted, seeks aimed at "
                 "{0, n-1, n, -1, current} and at the end-of-pass boundary, setters incl. invalid values, close/drop) "
@@ -1018,10 +1243,19 @@ def run(ctx):
                 "iterators over one caller-owned render data of a definite source (first advanced k in 0..n+1 frames "
                 "or run through a short history, closed or just dropped; second iterated fully or run through a "
                 "history); thorough adds every history of length <= 4 over a 7-letter alphabet containing a resize "
-                "or a write.  Non-trivial there: an environment change and >= 2 frames.",
+                "or a write.  Non-trivial there: an environment change and >= 2 frames.  "
+                "RENDER-ARGUMENTS family (IterArgs): histories over an instance of VRMid in the class hierarchy "
+                "Renderable <- VR <- VRMid <- VRLeaf, VR <- VRSib, Other; set_render_args (at least one per history, "
+                "~15% of the operations) and the constructors (RenderIterator(...) and _from_render_data_) are handed "
+                "render arguments associated with VRMid itself / the ancestors VR and Renderable / the SUBCLASS VRLeaf "
+                "/ the sibling VRSib / the unrelated Other, with field values 0-3 that the frames show (foo + 100*mid, "
+                "+10000 if _render_ is handed arguments not associated with the renderable's class); thorough adds "
+                "every history of length <= 4 over next / one set_render_args per relation / seek / close containing "
+                "both.  Non-trivial there: >= 2 frames and a set_render_args by class relation.",
         "samples": [describe(c) for c in cases[:2] + cases[len(CORPUS):len(CORPUS) + 3]]
                    + [describe_env(c) for c in env_cases[:1] + env_cases[len(ENV_CORPUS):len(ENV_CORPUS) + 2]
-                      + env_cases[-1:]],
+                      + env_cases[-1:]]
+                   + [describe_args(c) for c in arg_cases[:1] + arg_cases[len(ARGS_CORPUS):len(ARGS_CORPUS) + 1]],
         "histogram": hist,
         "mismatches": mismatches,
         "failures": failures,
@@ -1036,6 +1270,9 @@ def run(ctx):
             "the only client write modelled is the assignment to the public attribute `loop`; private attributes are "
             "not written by clients",
             "padding outputs are identified with their (left, top, right, bottom) dimensions (C05 covers the string)",
+            "render arguments are abstracted to (relation of their class to the renderable's class, inherited field, "
+            "own field); the conversion RenderArgs(render_cls, args) of compatible arguments (C16) keeps the "
+            "namespaces the arguments have and takes defaults for the rest",
         ],
         "trusted": ["impl driver decodes padded outputs of the instrumented renderable by counting fill characters; "
                     "classifies exceptions by class; reads iterator.loop and renderable.tell() after every operation; "
